@@ -105,6 +105,20 @@ func runC09(c *Ctx, in M) (out interface{}) {
 					rc = "err"
 				}
 			}
+		case "txn":
+			ids := getl(ev, "ents")
+			if len(ids) > 0 {
+				es := []*server.Entity{}
+				for _, v := range ids {
+					e := server.NewEntity(fmt.Sprintf("ns3:e%d", int(v.(float64))), 0)
+					e.Properties["ns3:v"] = "x"
+					es = append(es, e)
+				}
+				txn := &server.Transaction{DatasetEntities: map[string][]*server.Entity{name: es}}
+				if err := h.Store.ExecuteTransaction(txn); err != nil {
+					rc = "err"
+				}
+			}
 		case "jobEnd":
 			if err := jobs.VerifSinkEnd(sink, h.Runner); err != nil {
 				rc = "err"
@@ -170,8 +184,10 @@ func genC09(c *Ctx) {
 				evs = append(evs, M{"e": "http", "start": false, "id": "", "fin": false, "ents": ents}) // plain write
 			case r < 15:
 				evs = append(evs, M{"e": "jobStart"})
-			case r < 17:
+			case r < 16:
 				evs = append(evs, M{"e": "jobBatch", "ents": ents})
+			case r < 17:
+				evs = append(evs, M{"e": "txn", "ents": ents})
 			case r < 19:
 				evs = append(evs, M{"e": "jobEnd"})
 			default:
